@@ -107,8 +107,9 @@ func NewSolarFromJulianDay(julianDay float64) *Solar {
 		hour++
 	}
 	if hour > 23 {
-		hour -= 24
-		day += 1
+		// the carry may cross the end of a month or year: step the date, not the day number
+		next := NewSolar(year, month, day, 0, 0, 0).NextDay(1)
+		return NewSolar(next.year, next.month, next.day, hour-24, minute, second)
 	}
 
 	return NewSolar(year, month, day, hour, minute, second)
